@@ -130,6 +130,11 @@ void Ruleset::prerun(OomdContext& context) {
   for (const auto& action : action_group_) {
     action->prerun(context);
   }
+  // Per-cgroup instances of a ruleset-level cgroup own their plugin state; they
+  // need prerun() on every tick as well, not only when they are created.
+  for (const auto& instance : runnable_rulesets_) {
+    instance.second->prerun(context);
+  }
 }
 
 uint32_t Ruleset::runOnce(OomdContext& context) {
